@@ -73,6 +73,39 @@ def from_metric_event(Vs, s2, w, rng, tol=None, nonsym=False):
           'outcome': out, 'L': dym(L) if L is not None else [], 'd': d}
 
 
+def pinv_event(rng):
+  """_pseudo_inverse_from_eig on an exact eigen-decomposition: spectra over many orders of magnitude, exact zeros,
+  eigenvalues far below / far above the cut-off, default and explicit tol"""
+  from metric_learn._util import _pseudo_inverse_from_eig
+  d = int(rng.integers(1, 7))
+  k = int(rng.integers(0, 3)) if d > 1 else 0
+  Vs, s2 = givens_product(rng, d, k) if d > 1 else (np.array([[1]], dtype=object), 1)
+  mag = float(2.0 ** int(rng.integers(-40, 41)))
+  kind = str(rng.choice(['full', 'exact_zeros', 'roundoff_zeros', 'wide', 'explicit_tol']))
+  w = [float(rng.integers(1, 2000)) * mag for _ in range(d)]
+  tol = None
+  if kind == 'exact_zeros':
+    for i in rng.choice(d, size=max(1, d // 2), replace=False):
+      w[int(i)] = 0.0
+  elif kind == 'roundoff_zeros' and d > 1:
+    # what an eigen-solver returns for a null direction: +-(a small multiple of eps/64) * largest eigenvalue
+    for i in rng.choice(d, size=max(1, d // 3), replace=False):
+      w[int(i)] = float(rng.choice([-1, 1])) * max(w) * 2.0 ** -58 * float(rng.integers(1, 8))
+  elif kind == 'wide':
+    w = [float(2.0 ** int(rng.integers(-30, 31))) * mag for _ in range(d)]      # all far above the cut-off or far below
+    w = [x if (x > max(w) * 2.0 ** -40 or x < max(w) * 2.0 ** -56) else max(w) for x in w]
+  elif kind == 'explicit_tol':
+    tol = float(sorted(w)[d // 2]) * 3.0 if d > 1 else w[0] / 4.0
+  w = sorted(w)
+  V = np.array([[float(int(v)) for v in row] for row in Vs]) / np.sqrt(float(s2))
+  warr = np.array(w, dtype=float)
+  out, P = outcome_of(lambda: _pseudo_inverse_from_eig(warr.copy(), V.copy()) if tol is None
+                      else _pseudo_inverse_from_eig(warr.copy(), V.copy(), tol))
+  return {'ev': 'PseudoInverse', 'Vs': [[dy(int(v)) for v in row] for row in Vs], 's2': dy(int(s2)), 'w': dyv(w), 'kind': kind,
+          'tol_given': tol is not None, 'tol': dy(tol if tol is not None else 0.0), 'outcome': out,
+          'P': dym(P) if P is not None else []}
+
+
 def gen_trace(recipe):
   rng = np.random.default_rng(recipe['seed'])
   events = []
@@ -115,6 +148,8 @@ def gen_trace(recipe):
       if e:
         e['kind'] = kind
         events.append(e)
+  elif recipe['src'] == 'pinv':
+    events = [pinv_event(rng) for _ in range(recipe['n'])]
   elif recipe['src'] == 'init_metric':
     for _ in range(recipe['n']):
       d = int(rng.integers(2, 7))
@@ -248,11 +283,14 @@ def run(ctx):
     rs.append(dict(src='random_matrices', n=60 if ctx.quick else 80, seed=int(rng.integers(1 << 30))))
   for i in range(6 if ctx.quick else 40):
     rs.append(dict(src='init_metric', n=3, seed=int(rng.integers(1 << 30))))
+  for i in range(4 if ctx.quick else 40):
+    rs.append(dict(src='pinv', n=60 if ctx.quick else 120, seed=int(rng.integers(1 << 30))))
   for i in range(6 if ctx.quick else 40):
     rs.append(dict(src='init_components', n=2, seed=int(rng.integers(1 << 30))))
   ctx.rule = ('all %d states of MC_PSD (sizes 2-3, spectra in -W..W, 6 exact orthogonal bases each) + random matrices of size '
               '1..8 with exact spectral certificate (pd / singular / indefinite / near-PSD inside and outside an explicit '
-              'tolerance / diagonal / non-symmetric / spectra spanning 2^+-40) through components_from_metric; prior '
+              'tolerance / diagonal / non-symmetric / spectra spanning 2^+-40) through components_from_metric; '
+              '_pseudo_inverse_from_eig on exact eigen-decompositions (exact zeros, round-off zeros, wide spectra, explicit tol); prior '
               'options x strict_pd x array classes; transformation init options x n_components 1..d x auto rule x shape '
               'violations; distinct by event content; non-trivial = not the plain PD case' % len(states))
   pairs = core.generate(MOD, rs)
